@@ -3,10 +3,12 @@ import json
 import sys
 
 import checks_core
+import checks_sexp
 
 CHECKS = {
     "C02": (lambda ctx: checks_core.run_core(ctx, "pre"), "model_checking"),
     "C03": (lambda ctx: checks_core.run_core(ctx, "eff"), "model_checking"),
+    "C11": (checks_sexp.run, "model_checking"),
 }
 
 
@@ -30,6 +32,15 @@ META = {
                     "family is replayed into Operator.apply and each serialized successor, read back independently, is "
                     "judged by TLC against PddlApi!Apply_Exp; random larger actions are trace-validated."},
 }
+META["C11"] = {
+    "engine": "M+V", "design_ref": "DESIGN.md section 6 (C11)",
+    "note": "Exhaustive to the stated length only; beyond it random structured texts. Trusted base: the driver that turns "
+            "the library's nested lists into tagged trees; the harness' own reader is validated by the same vectors.",
+    "technique": "TLC model checking that a one-pass character-level reader refines the declarative tokens+parse reading "
+                 "on all short texts, plus trace validation of PDDLTokenizer outcomes against Sexp!Read",
+    "text": "MC_Sexp enumerates every text up to the bound and checks the small-step reader against the declarative "
+            "reading (plus case-insensitivity and no-trailing laws; as-found variants are refuted); every such text and "
+            "random structured texts are fed to PDDLTokenizer from string and from file and TLC judges each outcome."}
 NOT_YET = {}
 
 
